@@ -65,9 +65,27 @@ pub const ALPHABET: &[&str] = &[
     "[HitObjects]\r",
     "\u{3000}",
     "a\u{0085}",
+    " Mode: 2",
+    "_x: 1,2,3",
+    "Title: caf\u{e000}",
+    "// cr\u{e000}\u{e000}",
     "Creator:\u{040a}",
     "Source: \u{0a05}x\u{4e0a}",
 ];
+
+/// U+E000 in an alphabet entry stands for one invalid UTF-8 byte (0xE9) in the UTF-8 form of the file
+fn to_utf8_bytes(text: &str) -> Vec<u8> {
+    let mut out = Vec::with_capacity(text.len());
+    let mut buf = [0u8; 4];
+    for c in text.chars() {
+        if c == '\u{e000}' {
+            out.push(0xE9);
+        } else {
+            out.extend_from_slice(c.encode_utf8(&mut buf).as_bytes());
+        }
+    }
+    out
+}
 
 fn build(seq: &[usize], eol: &str, final_eol: bool) -> String {
     let mut s = String::new();
@@ -113,7 +131,7 @@ pub fn run(ctx: &mut Ctx) {
             };
             for (eol, fin) in variants {
                 let text = build(&seq, eol, *fin);
-                check_bytes(ctx, idx, text.as_bytes(), "enumerated-utf8");
+                check_bytes(ctx, idx, &to_utf8_bytes(&text), "enumerated-utf8");
             }
             // other encodings: a 1/16 sample of the enumeration
             if idx % 16 == 5 {
@@ -156,7 +174,7 @@ pub fn run(ctx: &mut Ctx) {
         let eol = if r.chance(1, 3) { "\r\n" } else { "\n" };
         let text = build(&seq, eol, r.chance(3, 4));
         let enc = ENCS[r.below(4)];
-        let bytes = gen::transcode(&text, enc);
+        let bytes = if enc == Enc::Utf8 { to_utf8_bytes(&text) } else { gen::transcode(&text, enc) };
         check_bytes(ctx, 1 << 56 | i, &bytes, "random-long");
         if i % 4 == 0 {
             metamorphic(ctx, 1 << 56 | i, &seq, &mut r);
